@@ -1101,6 +1101,17 @@ func lockReleased(fn *ssa.Function, lk ssa.CallInstruction) (bool, string) {
 		if d, ok := in.(*ssa.Defer); ok {
 			if o, ok := mutexOp(d); ok && o.kind == "unlock" && o.key == op.key {
 				defers = append(defers, d)
+				return
+			}
+			// a deferred function literal (or small helper) whose every path unlocks once
+			var callee *ssa.Function
+			if mc, isMC := d.Common().Value.(*ssa.MakeClosure); isMC {
+				callee, _ = mc.Fn.(*ssa.Function)
+			} else if f := d.Common().StaticCallee(); f != nil {
+				callee = f
+			}
+			if callee != nil && len(callee.Blocks) > 0 && goroutineUnlocksOnce(callee, op.key) {
+				defers = append(defers, d)
 			}
 		}
 	})
